@@ -235,9 +235,29 @@ def translate_cell(acc, rng, cfgname, hooked):
     for va in vas + [v ^ rng.choice((0x1000, 0x100000, 0x10000)) for v in vas[:3]]:
         pass
     pre_nomem = {k: v for k, v in pre.items()}
+    st0 = dict(st_)                  # the state the cell started from; later control changes and translations are replayed from `ops`
+    ops = []
     held = None          # (descriptor object, what it said when it was returned): a result stays what it was after later translations
     for va in vas + [v ^ rng.choice((0x1000, 0x100000, 0x10000)) for v in vas[:3]]:
         ispriv, iswrite = bool(rng.getrandbits(1)), bool(rng.getrandbits(1))
+        if rng.random() < 0.3:
+            # the same long-lived instance translates again after ONE control bit or register changed (the other registers keep their values): whatever
+            # an implementation derives from the translation controls is keyed by all of them
+            k_ = rng.choice(('sctlr', 'sctlr', 'sctlr', 'dacr', 'prrr', 'nmrr', 'ttbcr'))
+            if k_ == 'sctlr':
+                nv = pre['sctlr'] ^ (1 << rng.choice((28, 29, 28, 25 if False else 28)))
+            elif k_ == 'dacr':
+                nv = pre['dacr'] ^ (rng.choice((1, 2, 3)) << (2 * rng.randrange(16)))
+            elif k_ == 'ttbcr':
+                nv = pre['ttbcr'] ^ (1 << rng.choice((4, 5)))
+            else:
+                nv = pre[k_] ^ (1 << rng.randrange(32))
+            target.apply_state(cpu, {k_: nv})
+            pre = dict(pre)
+            pre[k_] = nv
+            st_[k_] = nv
+            ops.append(['c', k_, nv])
+            acc.cls('translate:control-changed-between-translations:' + k_)
         target.apply_state(cpu, {k_: pre[k_] for k_ in ('dfsr', 'dfar', 'hsr', 'hdfar', 'hpfar') if k_ in pre})
         M = Machine(pre, devs, cfg, hooked)
         M.walk_reads = 0
@@ -273,6 +293,8 @@ def translate_cell(acc, rng, cfgname, hooked):
         except Exception as e:
             got = ('notimpl', repr(e), None) if target.escape_ok(e) else ('host-error', repr(e), None)
         post = target.snapshot(cpu, False)
+        hist = list(ops)
+        ops.append(['t', va, ispriv, iswrite])
         two_level = getattr(M, 'walk_reads', 0) >= 2
         nontriv = two_level or (n and (va >> (32 - n))) or ref[0] == 'abort' or big
         acc.case(bool(nontriv) and ref[0] not in ('unpred', 'skip'), (cfgname, hooked, st_['mem1'][:0], tuple(sorted(tb.mem.items())), st_['sctlr'], st_['ttbcr'], st_['dacr'], va, ispriv, iswrite),
@@ -282,7 +304,7 @@ def translate_cell(acc, rng, cfgname, hooked):
         if ref[0] in ('unpred', 'skip'):
             acc.excluded += 1
             if got[0] in ('host-error', 'hang'):
-                acc.violation('C15:translate:%s' % got[0], {'cfgname': cfgname, 'hooked': hooked, 'state': jsonable_state(st_), 'va': va, 'ispriv': ispriv, 'iswrite': iswrite}, {'got': list(got)})
+                acc.violation('C15:translate:%s' % got[0], {'cfgname': cfgname, 'hooked': hooked, 'state': jsonable_state(st0), 'history': hist, 'va': va, 'ispriv': ispriv, 'iswrite': iswrite}, {'got': list(got)})
             continue
         bad = None
         if ref[0] == 'notimpl':
@@ -296,7 +318,7 @@ def translate_cell(acc, rng, cfgname, hooked):
                 bad = {'state(expected,observed)': e1.fmt_diff(dd), 'reference': list(ref)}
         if bad:
             acc.violation('C15:translate:%s:%s-vs-%s' % (cfgname, ':'.join(str(x) for x in ref[:1] + ((ref[1], ref[2]) if ref[0] == 'abort' else ())), got[0] + (':' + str(got[1]) if got[0] == 'abort' else '')),
-                          {'cfgname': cfgname, 'hooked': hooked, 'state': jsonable_state(st_), 'va': va, 'ispriv': ispriv, 'iswrite': iswrite}, bad)
+                          {'cfgname': cfgname, 'hooked': hooked, 'state': jsonable_state(st0), 'history': hist, 'va': va, 'ispriv': ispriv, 'iswrite': iswrite}, bad)
 
 
 def jsonable_state(st_):
@@ -315,6 +337,10 @@ def shard_translate(seed, count):
 # ------------------------------------------------------------------------------------------------ long descriptors (direct)
 def ld_cell(acc, rng, hooked, prop='C15', unpriv_only=False, hyp=False):
     cfgov = CFGS['v7-virt-secure'] if hyp else CFGS['v7-lpae']
+    transient = rng.random() < 0.3
+    if transient:
+        # IMPLEMENTATION DEFINED choice in the configuration file: the transient cacheability hints of MAIRn are implemented
+        cfgov = dict(cfgov, implementation_supports_transient=True)
     cfg = diff.full_cfg(cfgov)
     t0sz, t1sz = rng.choice((0, 0, 1, 2, 3, 7)), rng.choice((0, 0, 1, 2, 5))
     big = 1 if rng.random() < 0.2 else 0
@@ -420,7 +446,7 @@ def ld_cell(acc, rng, hooked, prop='C15', unpriv_only=False, hyp=False):
         if ref[0] == 'skip':
             acc.excluded += 1
             if got[0] in ('host-error', 'hang'):
-                acc.violation(prop + ':ld:' + got[0], {'ld': True, 'hyp': hyp, 'hooked': hooked, 'state': jsonable_state(st_), 'va': va, 'ispriv': ispriv, 'iswrite': iswrite}, {'got': list(got)})
+                acc.violation(prop + ':ld:' + got[0], {'ld': True, 'hyp': hyp, 'transient': transient, 'hooked': hooked, 'state': jsonable_state(st_), 'va': va, 'ispriv': ispriv, 'iswrite': iswrite}, {'got': list(got)})
             continue
         bad = None
         if ref[0] == 'notimpl':
@@ -434,7 +460,7 @@ def ld_cell(acc, rng, hooked, prop='C15', unpriv_only=False, hyp=False):
                 bad = {'state(expected,observed)': e1.fmt_diff(dd), 'reference': list(ref)}
         if bad:
             acc.violation(prop + (':hyp-ld:' if hyp else ':ld:') + '%s-vs-%s' % (':'.join(str(x) for x in ref[:3] if x is not None and not isinstance(x, int) or ref[0] == 'abort' and isinstance(x, int)), got[0] + (':' + str(got[1]) if got[0] == 'abort' else '')),
-                          {'ld': True, 'hyp': hyp, 'hooked': hooked, 'state': jsonable_state(st_), 'va': va, 'ispriv': ispriv, 'iswrite': iswrite}, bad)
+                          {'ld': True, 'hyp': hyp, 'transient': transient, 'hooked': hooked, 'state': jsonable_state(st_), 'va': va, 'ispriv': ispriv, 'iswrite': iswrite}, bad)
 
 
 def shard_ld(seed, count):
@@ -466,6 +492,11 @@ def tweak(rng, row, w, case):
     tb.mem[tb.l1_entry_addr(VWIN)] = 0b10 | ((a['ap'] & 3) << 10) | ((a['ap'] >> 2) << 15) | (a['domain'] << 5) | (a['tex'] << 12) | (a['c'] << 3) | (a['b'] << 2)
     tb.map(VWIN + 0x100000, 'table-small', 0x20000)
     tb.map(VWIN + 0x101000, rng.choice(('table-small', 'table-invalid2', 'table-large')), rng.choice((0x20000, 0x0)))
+    if rng.random() < 0.4:
+        # ... as Device / Strongly-ordered memory next to the Normal page below it (TEX remap off: TEX=000, C=0, B=1 / 0)
+        e2a = (tb.mem[tb.l1_entry_addr(VWIN + 0x100000)] & ~0x3FF) | (((VWIN + 0x101000) >> 12) & 0xFF) << 2
+        tb.mem[e2a] = 0b10 | (rng.getrandbits(1) << 2) | (3 << 4) | 0x20000
+        tb.mem[e2a - 4] = 0b10 | (3 << 2) | (3 << 4) | 0x20000 | (1 << 6)
     tb.map(VWIN + 0x200000, rng.choice(('invalid1', 'garbage', 'supersection')), 0)
     case['mems'].append([TABLES[0], TABLES[1]])
     for addr, wd in sorted(tb.mem.items()):
@@ -478,7 +509,8 @@ def tweak(rng, row, w, case):
     st_['scr'] = 0 if 'scr' in st_ else st_.get('scr', 0)
     f = row.extract(w)
     mode = gen.MODE_NAME[st_['cpsr'] & 31]
-    targets = [VWIN + 0x20040, VWIN + 0x20040, VWIN + 0x100040, VWIN + 0x100FFC, VWIN + 0x101004, VWIN + 0x200010, 0x20040, VWIN + 0x20000 - 4]
+    targets = [VWIN + 0x20040, VWIN + 0x20040, VWIN + 0x100040, VWIN + 0x100FFC, VWIN + 0x101004, VWIN + 0x200010, 0x20040, VWIN + 0x20000 - 4,
+               VWIN + 0x100FFE, VWIN + 0x100FFD, VWIN + 0x100FFF]       # (unaligned accesses across the boundary of two pages with their own attributes: checked byte by byte)
     k = None
     if 'n' in f and f['n'] <= 14 and not row.name.startswith(('PUSH', 'POP')):
         k = gen.bank_key(f['n'], mode)
@@ -518,7 +550,7 @@ def classify(res, case):
     return out
 
 
-PLAN = e1prop.Plan('C15', ROWS, cfgs=('v7-vmsa', 'v6-vmsa', 'v7-lpae'), classify=classify, tweak_case=tweak, hooked=(True, True, False),
+PLAN = e1prop.Plan('C15', ROWS, cfgs=('v7-vmsa', 'v6-vmsa', 'v7-lpae', 'v7-virt'), classify=classify, tweak_case=tweak, hooked=(True, True, False),
                    nontrivial=lambda res: res.status == 'abort' or e1prop.default_nontrivial(res),
                    case_kw=lambda rng, row: {'mmu': False, 'e': 0, 'code_base': 0x8000, 'mode': rng.choice(('usr', 'svc', 'svc', 'sys', 'irq'))})
 
@@ -581,12 +613,25 @@ def replay(case, bucket=None):
     if 'va' in case:
         hooked = case['hooked']
         cfgov = (CFGS['v7-virt-secure'] if case.get('hyp') else CFGS['v7-lpae']) if case.get('ld') else CFGS[case['cfgname']]
+        if case.get('transient'):
+            cfgov = dict(cfgov, implementation_supports_transient=True)
         cfg = diff.full_cfg(cfgov)
         devs = [(0, 0x100), TABLES] + ([S2DEV] if case.get('cfgname') == 'v7-virt-ns' else [])
         cpu = target.new_cpu(cfgov, hooked, devs)
         target.budget_cpu(cpu, hooked)
         st_ = {k: (bytes.fromhex(v) if k.startswith('mem') else v) for k, v in case['state'].items()}
         target.apply_state(cpu, st_)
+        for op in case.get('history') or ():
+            # what the same instance did before the failing translation: control changes and earlier translations
+            if op[0] == 'c':
+                target.apply_state(cpu, {op[1]: op[2]})
+            else:
+                keep = target.snapshot(cpu, False)
+                try:
+                    cpu.translate_address(op[1], op[2], op[3], 4, True)
+                except BaseException:       # noqa: BLE001
+                    pass
+                target.apply_state(cpu, {k_: keep[k_] for k_ in ('dfsr', 'dfar', 'hsr', 'hdfar', 'hpfar') if k_ in keep})
         pre = target.snapshot(cpu)
         if case.get('kind') == 'held':
             try:
